@@ -320,6 +320,42 @@ def drive(O, vals, with_docs=True):
     return out
 
 
+def py_same(v, r):
+    """direct Python oracle of 'equal value of the corresponding type' (DESIGN.md C06)"""
+    if v is None: return r is None
+    if isinstance(v, bool): return r is v
+    if isinstance(v, (int, Decimal)): return type(r) in (int, Decimal) and r == v
+    if isinstance(v, float): return type(r) in (int, Decimal) and r == Decimal(repr(v))
+    if isinstance(v, str): return type(r) is str and r == v
+    if isinstance(v, datetime): return isinstance(r, datetime) and r == v and r.utcoffset() == v.utcoffset() and (r.tzinfo is None) == (v.tzinfo is None)
+    if isinstance(v, date): return isinstance(r, datetime) and r == datetime(v.year, v.month, v.day) and r.tzinfo is None
+    if isinstance(v, timedelta): return r == v
+    return False
+
+
+def py_oracle(O, vals):
+    """first (carrier, value) on which the property fails on the direct leg, or None; used only when the Coq side broke"""
+    from odfdo.variable import VarSet, UserFieldDecl, UserDefined
+    def cellv(v):
+        c = O.Cell(); c.value = v; return c.value
+    def meta(v):
+        d = py_oracle.doc = getattr(py_oracle, "doc", None) or O.Document("text")
+        d.meta.set_user_defined_metadata("k", v); return d.meta.get_user_defined_metadata_of_name("k")["value"]
+    legs = {"Cell(v)": lambda v: O.Cell(v).get_value(), "Cell.value=": cellv, "VarSet(v)": lambda v: VarSet(name="n", value=v).get_value(),
+            "UserFieldDecl(v)": lambda v: UserFieldDecl(name="n", value=v).get_value(), "UserDefined(v)": lambda v: UserDefined(name="n", value=v).get_value(), "Meta": meta}
+    for v in vals:
+        vc = vclass(v)
+        if vc in ("str-not-xml", "other") or (isinstance(v, float) and v != v) or (isinstance(v, float) and v in (float("inf"), float("-inf"))):
+            continue
+        for name, f in legs.items():
+            if name == "Meta" and v is None:
+                continue
+            ok, r = limited(lambda: f(v))
+            if not ok or not py_same(v, r):
+                return name, v
+    return None
+
+
 def finding_key(name, vc):
     group = "Meta" if name == "Meta" else "Cell.value" if name == "Cell.value=" else "ElementTyped"
     return "%s/%s" % (group, vc)
@@ -368,6 +404,14 @@ def run(tier, seed, replay=None):
                                  case=dict(carrier=name, value=repr(vals[vi])), coq_case=coq, known_finding_key=None))
         violations.append((rp, False))
     hard_found = bool(violations)
+    if ((not proofs["ok"]) or errors) and not hard_found:
+        # look for a concrete failing input with the direct oracle before giving the no-input verdict
+        pool = vals if tier == "thorough" or replay else vals + boundary_values("thorough", random.Random(seed))
+        found = py_oracle(O, pool)
+        if found:
+            rp = common.write_replay(PROP, seed, "oracle", dict(layer="python-oracle: the property fails on this input (direct leg)",
+                                     case=dict(carrier=found[0], value=repr(found[1])), input_class=finding_key(found[0], vclass(found[1]))))
+            violations.append((rp, False)); hard_found = True
     violations += common.proof_violation(PROP, seed, proofs, errors, hard_found)
     hist, chist = {}, {}
     for n, i, c, vc in driven:
